@@ -18,7 +18,7 @@ from .. import lib_fm_loops as L
 
 # family -> (quick, thorough) number of programs
 PLAN = {
-    'cp/base': (14, 145), 'cp/intdiv': (4, 30), 'cp/call': (6, 50), 'cp/while': (5, 35), 'cp/select': (6, 50),
+    'cp/base': (14, 145), 'cp/straight': (16, 160), 'cp-dce/straight': (8, 80), 'cp/intdiv': (4, 30), 'cp/call': (6, 50), 'cp/while': (5, 35), 'cp/select': (6, 50),
     'cp/exitcycle': (5, 40), 'cp/section': (5, 40), 'cp/assoc': (5, 40), 'cp-unroll/base': (10, 100),
     'cp-dce/base': (8, 75), 'dce/base': (12, 110), 'dce/intdiv': (4, 30),
     'vars-arrays/base': (6, 55), 'vars-all/base': (5, 40),
